@@ -752,6 +752,8 @@ impl Reader {
       writer_guid,
       writer_sn,
     );
+    #[cfg(rustdds_verif)]
+    crate::verif_hooks::sched::yield_point("reader.inserted");
 
     // Add to own track-keeping data structure
     #[cfg(test)]
@@ -1224,9 +1226,13 @@ impl Reader {
       .unwrap() // TODO: unwrap
       .take() // Take to nullify the reference
       .map(|w| w.wake_by_ref()); // If Some, call wake_by_ref
+    #[cfg(rustdds_verif)]
+    crate::verif_hooks::sched::yield_point("reader.woke");
 
     // mio-0.8 notify
     self.poll_event_sender.send();
+    #[cfg(rustdds_verif)]
+    crate::verif_hooks::sched::yield_point("reader.sent08");
 
     // mio-0.6 notify
     match self.notification_sender.try_send(()) {
